@@ -39,24 +39,26 @@ def kyupy_dir():
     return _KYUPY_DIR
 
 
+def classify(e):
+    """Exceptions raised from inside kyupy on an in-domain case are violations, exceptions raised by the harness
+    itself are harness errors. Returns the exception to raise instead of e."""
+    if isinstance(e, (Violation, HarnessError)):
+        return e
+    tb = traceback.extract_tb(e.__traceback__)
+    kd = kyupy_dir()
+    inner = [f for f in tb if os.path.abspath(f.filename).startswith(kd)]
+    if inner:
+        f = inner[-1]
+        return Violation(f'kyupy raised {type(e).__name__}: {str(e)[:200]} '
+                         f'at {os.path.basename(f.filename)}:{f.lineno} ({f.name})')
+    return HarnessError(f'{type(e).__name__}: {e}\n' + ''.join(traceback.format_exception(e)))
+
+
 def call_prop(prop, case):
-    """Runs prop(case). Exceptions raised from inside kyupy on an in-domain case are violations,
-    exceptions raised by the harness itself are harness errors."""
     try:
         obs = prop(case)
-    except Violation:
-        raise
-    except HarnessError:
-        raise
     except Exception as e:  # noqa
-        tb = traceback.extract_tb(e.__traceback__)
-        kd = kyupy_dir()
-        inner = [f for f in tb if os.path.abspath(f.filename).startswith(kd)]
-        if inner:
-            f = inner[-1]
-            raise Violation(f'kyupy raised {type(e).__name__}: {str(e)[:200]} '
-                            f'at {os.path.basename(f.filename)}:{f.lineno} ({f.name})') from e
-        raise HarnessError(f'{type(e).__name__}: {e}\n' + ''.join(traceback.format_exception(e))) from e
+        raise classify(e) from e
     if obs is None:
         obs = Obs()
     return obs
